@@ -48,6 +48,9 @@ func (o *Obligation) Script(forCVC5 bool) string {
 		b.WriteString(fmt.Sprintf("(declare-const %s Str)\n", x.u.strLits[s]))
 	}
 	for i, a := range x.u.axioms {
+		if o.WantSat && strings.Contains(a, "(forall ") {
+			continue // reachability canaries are decided without the quantified background axioms
+		}
 		b.WriteString(fmt.Sprintf("(assert (! %s :named ax_%d))\n", a, i))
 	}
 	for _, a := range x.u.StrAxioms() {
@@ -58,6 +61,9 @@ func (o *Obligation) Script(forCVC5 bool) string {
 		b.WriteByte('\n')
 	}
 	for _, f := range x.facts[:o.NFacts] {
+		if o.WantSat && strings.Contains(f, "(forall ") {
+			continue
+		}
 		b.WriteString("(assert " + f + ")\n")
 	}
 	b.WriteString("(assert " + o.PC.S + ")\n")
@@ -222,6 +228,10 @@ func solveAll(obls []*Obligation, dir string, timeout time.Duration, confirm boo
 				// syntactically trivial goals need no solver
 				if !o.WantSat && o.Goal.IsTrue() {
 					o.Result = &SolveResult{Status: "unsat", Solver: "syntactic"}
+					continue
+				}
+				if o.WantSat {
+					solveObligation(o, dir, 3*time.Second, false, order)
 					continue
 				}
 				solveObligation(o, dir, timeout, confirm, order)
